@@ -128,3 +128,123 @@ package fclient
 //@   calls LookupWellKnown@root for-this-name: serverNameType == root_serverName
 //@   calls resolveServer@root delegated-name-without-a-further-well-known-lookup: serverName == ret(LookupWellKnown, 0).NewAddress && !checkWellKnown
 //@   calls handleNoWellKnown@root for-this-name: serverName == root_serverName
+
+// ---------------------------------------------------------------- C18: zero-annotation sweep
+// Functions whose no-panic obligations discharge without any contract beyond a non-nil pointer receiver
+// (generated from `gvc sweep`; `inline`: callers keep seeing the body).
+
+//@ func (*Client).SetUserAgent
+//@   property C18:safety
+//@   inline
+//@   requires fc != nil
+
+//@ func (*DeviceKeys).Scan
+//@   property C18:safety
+//@   inline
+//@   requires s != nil
+
+//@ func (*FederationRequest).Content
+//@   property C18:safety
+//@   inline
+//@   requires r != nil
+
+//@ func (*FederationRequest).Destination
+//@   property C18:safety
+//@   inline
+//@   requires r != nil
+
+//@ func (*FederationRequest).SetContent
+//@   property C18:safety
+//@   inline
+//@   requires r != nil
+
+//@ func (*InviteV2Request).Event
+//@   property C18:safety
+//@   inline
+//@   requires i != nil
+
+//@ func (*InviteV2Request).UnmarshalJSON
+//@   property C18:safety
+//@   inline
+//@   requires i != nil
+
+//@ func (*InviteV3Request).Event
+//@   property C18:safety
+//@   inline
+//@   requires i != nil
+
+//@ func (*InviteV3Request).RoomVersion
+//@   property C18:safety
+//@   inline
+//@   requires i != nil
+
+//@ func (*MSC2836EventRelationshipsRequest).Defaults
+//@   property C18:safety
+//@   inline
+//@   requires r != nil
+
+//@ func (*RespInvite).UnmarshalJSON
+//@   property C18:safety
+//@   inline
+//@   requires r != nil
+
+//@ func (*RespMakeJoin).GetJoinEvent
+//@   property C18:safety
+//@   inline
+//@   requires r != nil
+
+//@ func (*RespMakeJoin).GetRoomVersion
+//@   property C18:safety
+//@   inline
+//@   requires r != nil
+
+//@ func (*RespPeek).GetAuthEvents
+//@   property C18:safety
+//@   inline
+//@   requires r != nil
+
+//@ func (*RespSendJoin).GetAuthEvents
+//@   property C18:safety
+//@   inline
+//@   requires r != nil
+
+//@ func (*RespSendJoin).GetMembersOmitted
+//@   property C18:safety
+//@   inline
+//@   requires r != nil
+
+//@ func (*RespSendJoin).GetOrigin
+//@   property C18:safety
+//@   inline
+//@   requires r != nil
+
+//@ func (*RespSendJoin).GetServersInRoom
+//@   property C18:safety
+//@   inline
+//@   requires r != nil
+
+//@ func (*RespSendJoin).GetStateEvents
+//@   property C18:safety
+//@   inline
+//@   requires r != nil
+
+//@ func (*RespState).GetStateEvents
+//@   property C18:safety
+//@   inline
+//@   requires r != nil
+
+//@ func (RespInvite).MarshalJSON
+//@   property C18:safety
+//@   inline
+
+//@ func (RespSendJoin).MarshalJSON
+//@   property C18:safety
+//@   inline
+
+//@ func (RespState).MarshalJSON
+//@   property C18:safety
+//@   inline
+
+//@ func makeVersionQueryString
+//@   property C18:safety
+//@   inline
